@@ -33,7 +33,9 @@ impl IoDriver {
     }
 
     pub(crate) async fn open(&self, path: impl AsRef<Path>) -> IOResult<File> {
-        File::from_file(path, |f| f.create(false).append(true).read(true)).await
+        // Not in append mode: writes go to the offsets reserved by the size counter (with O_APPEND the kernel
+        // ignores the offset of a positional write and appends at the end of the file instead)
+        File::from_file(path, |f| f.create(false).write(true).read(true)).await
     }
 
     pub(crate) async fn create(&self, path: impl AsRef<Path>) -> IOResult<File> {
